@@ -236,7 +236,7 @@ impl Profile {
             }
             "C04" => {
                 f.name = "C04";
-                f.gen_pct = 8;
+                f.gen_pct = 15;
                 f.pool_pct = 80;
                 f.wide_pct = 60;
                 f.nopool_pct = 15;
@@ -399,6 +399,15 @@ pub fn gen_project(r: &mut Rng, pf: &Profile) -> Project {
                 let n = srcs[j].name.clone();
                 srcs[i].incs.push(n);
             }
+        }
+    }
+    // phantom includes: a header that never exists, reported -MG style: the including
+    // steps are never recorded and re-run in every invocation
+    for i in 0..nsrc {
+        if r.pct(6) {
+            srcs[i].incs.push(format!("ghost{}.h", i));
+            srcs[i].soft = true;
+            srcs[i].mg = true;
         }
     }
     let mut pools = Vec::new();
@@ -887,7 +896,13 @@ fn gen_edit(r: &mut Rng, p: &Project, pf: &Profile, next_id: &mut usize) -> Opti
     let y = r.below(100) as u64;
     let structural = r.pct(pf.struct_pct);
     if structural {
-        return Some(match r.below(7) {
+        return Some(match r.below(8) {
+            7 => {
+                if p.pools.is_empty() {
+                    return None;
+                }
+                Op::SetPoolDepth { pool: r.below(p.pools.len()), depth: r.below(4) }
+            }
             6 => {
                 let outs = p.all_outs();
                 let mut d = Vec::new();
